@@ -419,5 +419,244 @@ theorem rne_le_of_le_rep (p : Nat) (hp : 1 ≤ p) (emin : Int) {f q : ℚ} (hf :
   have := rne_mono p hp emin h
   rwa [rne_eq_self_of_rep p emin hf] at this
 
+/-! ### `Fmt.round` -/
+
+theorem Fmt.round_cases (f : Fmt) (q : ℚ) :
+    f.round q = .inf false ∨ f.round q = .inf true ∨ f.round q = .fin (rne f.p f.emin q) := by
+  unfold Fmt.round
+  simp only []
+  split
+  · left; rfl
+  · split
+    · right; left; rfl
+    · right; right; rfl
+
+theorem Fmt.round_ne_nan (f : Fmt) (q : ℚ) : f.round q ≠ .nan := by
+  rcases f.round_cases q with h | h | h <;> rw [h] <;> simp
+
+/-- rounding a non-negative number gives `+inf` or a non-negative real -/
+theorem Fmt.round_of_nonneg (f : Fmt) {q : ℚ} (hq : 0 ≤ q) :
+    f.round q = .inf false ∨ (f.round q = .fin (rne f.p f.emin q) ∧ 0 ≤ rne f.p f.emin q) := by
+  have hr := rne_nonneg f.p f.emin hq
+  unfold Fmt.round
+  simp only []
+  split
+  · left; rfl
+  · right
+    have : ¬ rne f.p f.emin q ≤ -pow2 f.emax := by
+      have := pow2_pos f.emax; intro h; linarith
+    rw [if_neg this]; exact ⟨rfl, hr⟩
+
+/-- one correctly rounded operation is monotone in its exact argument -/
+theorem Fmt.round_mono (f : Fmt) (hp : 1 ≤ f.p) {a b : ℚ} (hab : a ≤ b) :
+    le (f.round a) (f.round b) = true := by
+  have hr := rne_mono f.p hp f.emin hab
+  have hpos := pow2_pos f.emax
+  unfold Fmt.round
+  simp only []
+  by_cases h1 : pow2 f.emax ≤ rne f.p f.emin a
+  · have h2 : pow2 f.emax ≤ rne f.p f.emin b := le_trans h1 hr
+    rw [if_pos h1, if_pos h2]; rfl
+  · rw [if_neg h1]
+    by_cases h3 : rne f.p f.emin a ≤ -pow2 f.emax
+    · rw [if_pos h3]
+      split
+      · rfl
+      · split <;> rfl
+    · rw [if_neg h3]
+      by_cases h2 : pow2 f.emax ≤ rne f.p f.emin b
+      · rw [if_pos h2]; rfl
+      · rw [if_neg h2]
+        have h4 : ¬ rne f.p f.emin b ≤ -pow2 f.emax := by intro h; linarith [not_le.mp h3]
+        rw [if_neg h4]
+        simp [le, hr]
+
+/-- a representable value below the overflow threshold is returned unchanged -/
+theorem Fmt.round_eq_self_of_rep (f : Fmt) {q : ℚ} (h : Rep f.p f.emin q)
+    (h1 : q < pow2 f.emax) (h2 : -pow2 f.emax < q) : f.round q = .fin q := by
+  unfold Fmt.round
+  simp only [rne_eq_self_of_rep f.p f.emin h]
+  rw [if_neg (not_le.mpr h1), if_neg (not_le.mpr h2)]
+
+/-! ### IEEE comparisons, Rust `max`/`min` -/
+
+@[simp] theorem lt_nan_left (b : FV) : lt .nan b = false := by cases b <;> rfl
+@[simp] theorem lt_nan_right (a : FV) : lt a .nan = false := by cases a <;> rfl
+@[simp] theorem le_nan_left (b : FV) : le .nan b = false := by cases b <;> rfl
+@[simp] theorem le_nan_right (a : FV) : le a .nan = false := by cases a <;> rfl
+@[simp] theorem lt_fin_fin (a b : ℚ) : lt (.fin a) (.fin b) = decide (a < b) := rfl
+@[simp] theorem le_fin_fin (a b : ℚ) : le (.fin a) (.fin b) = decide (a ≤ b) := rfl
+
+theorem le_refl_of_ne_nan {a : FV} (h : a ≠ .nan) : le a a = true := by
+  cases a with
+  | nan => exact absurd rfl h
+  | inf s => cases s <;> rfl
+  | fin q => simp
+
+theorem lt_irrefl (a : FV) : lt a a = false := by
+  cases a with
+  | nan => rfl
+  | inf s => cases s <;> rfl
+  | fin q => simp
+
+theorem le_of_lt {a b : FV} (h : lt a b = true) : le a b = true := by
+  rcases a with _ | ⟨_ | _⟩ | a <;> rcases b with _ | ⟨_ | _⟩ | b <;> simp_all [lt, le]
+  exact h.le
+
+theorem le_trans' {a b c : FV} (h1 : le a b = true) (h2 : le b c = true) : le a c = true := by
+  rcases a with _ | ⟨_ | _⟩ | a <;> rcases b with _ | ⟨_ | _⟩ | b <;> rcases c with _ | ⟨_ | _⟩ | c <;>
+    simp_all [le]
+  exact _root_.le_trans h1 h2
+
+theorem lt_of_lt_of_le' {a b c : FV} (h1 : lt a b = true) (h2 : le b c = true) : lt a c = true := by
+  rcases a with _ | ⟨_ | _⟩ | a <;> rcases b with _ | ⟨_ | _⟩ | b <;> rcases c with _ | ⟨_ | _⟩ | c <;>
+    simp_all [lt, le]
+  exact lt_of_lt_of_le h1 h2
+
+theorem lt_of_le_of_lt' {a b c : FV} (h1 : le a b = true) (h2 : lt b c = true) : lt a c = true := by
+  rcases a with _ | ⟨_ | _⟩ | a <;> rcases b with _ | ⟨_ | _⟩ | b <;> rcases c with _ | ⟨_ | _⟩ | c <;>
+    simp_all [lt, le]
+  exact lt_of_le_of_lt h1 h2
+
+/-- for non-NaN operands exactly one of `a < b`, `b ≤ a` holds -/
+theorem lt_or_ge_of_ne_nan {a b : FV} (ha : a ≠ .nan) (hb : b ≠ .nan) : lt a b = !le b a := by
+  cases a with
+  | nan => exact absurd rfl ha
+  | inf s =>
+    cases b with
+    | nan => exact absurd rfl hb
+    | inf t => cases s <;> cases t <;> rfl
+    | fin q => cases s <;> rfl
+  | fin p =>
+    cases b with
+    | nan => exact absurd rfl hb
+    | inf t => cases t <;> rfl
+    | fin q => simp only [lt_fin_fin, le_fin_fin, ← not_le, decide_not]
+
+theorem fmax_nan_left (b : FV) : fmax .nan b = b := by cases b <;> rfl
+theorem fmax_nan_right (a : FV) : fmax a .nan = a := by cases a <;> rfl
+theorem fmin_nan_left (b : FV) : fmin .nan b = b := by cases b <;> rfl
+theorem fmin_nan_right (a : FV) : fmin a .nan = a := by cases a <;> rfl
+
+theorem fmax_of_ne_nan {a b : FV} (ha : a ≠ .nan) (hb : b ≠ .nan) :
+    fmax a b = if lt a b then b else a := by
+  cases a <;> cases b <;> first | rfl | (exfalso; simp at ha)
+
+theorem fmin_of_ne_nan {a b : FV} (ha : a ≠ .nan) (hb : b ≠ .nan) :
+    fmin a b = if lt b a then b else a := by
+  cases a <;> cases b <;> first | rfl | (exfalso; simp at ha)
+
+/-- Rust's `max` returns NaN only when both operands are NaN -/
+theorem fmax_ne_nan_left {a : FV} (b : FV) (ha : a ≠ .nan) : fmax a b ≠ .nan := by
+  by_cases hb : b = .nan
+  · subst hb; rw [fmax_nan_right]; exact ha
+  · rw [fmax_of_ne_nan ha hb]; split <;> assumption
+
+theorem fmin_ne_nan_left {a : FV} (b : FV) (ha : a ≠ .nan) : fmin a b ≠ .nan := by
+  by_cases hb : b = .nan
+  · subst hb; rw [fmin_nan_right]; exact ha
+  · rw [fmin_of_ne_nan ha hb]; split <;> assumption
+
+theorem le_fmax_left {a : FV} (b : FV) (ha : a ≠ .nan) : le a (fmax a b) = true := by
+  by_cases hb : b = .nan
+  · subst hb; rw [fmax_nan_right]; exact le_refl_of_ne_nan ha
+  · rw [fmax_of_ne_nan ha hb]
+    split
+    · rename_i h; exact le_of_lt h
+    · exact le_refl_of_ne_nan ha
+
+theorem fmin_le_right {b : FV} (a : FV) (ha : a ≠ .nan) (hb : b ≠ .nan) : le (fmin a b) b = true := by
+  rw [fmin_of_ne_nan ha hb]
+  split
+  · exact le_refl_of_ne_nan hb
+  · rename_i h
+    have := lt_or_ge_of_ne_nan hb ha
+    rw [this] at h
+    simpa using h
+
+theorem fmin_le_left {a : FV} (b : FV) (ha : a ≠ .nan) : le (fmin a b) a = true := by
+  by_cases hb : b = .nan
+  · subst hb; rw [fmin_nan_right]; exact le_refl_of_ne_nan ha
+  · rw [fmin_of_ne_nan ha hb]
+    split
+    · rename_i h; exact le_of_lt h
+    · exact le_refl_of_ne_nan ha
+
+/-- `min` keeps lower bounds that both operands satisfy -/
+theorem le_fmin {c a b : FV} (ha : a ≠ .nan) (h1 : le c a = true) (h2 : b = .nan ∨ le c b = true) :
+    le c (fmin a b) = true := by
+  by_cases hb : b = .nan
+  · subst hb; rw [fmin_nan_right]; exact h1
+  · rw [fmin_of_ne_nan ha hb]
+    rcases h2 with h2 | h2
+    · exact absurd h2 hb
+    · split <;> assumption
+
+/-! ### casts -/
+
+theorem toU64_le_max (v : FV) : toU64 v ≤ u64Max := by
+  unfold toU64
+  split
+  · exact Nat.zero_le _
+  · exact Nat.zero_le _
+  · exact le_refl _
+  · split
+    · exact Nat.zero_le _
+    · simp only []
+      split
+      · exact le_refl _
+      · rename_i h; exact not_lt.mp h
+
+/-- the saturating cast lands in `[0, 2^64)` -/
+theorem toU64_lt (v : FV) : toU64 v < 2 ^ 64 := by
+  have := toU64_le_max v
+  unfold u64Max at this
+  omega
+
+/-- a value that is `-inf` or a real number `≤ M` casts to at most `M` -/
+theorem toU64_le_of_le {q : ℚ} {M : Nat} (h : q ≤ (M : ℚ)) : toU64 (.fin q) ≤ M := by
+  unfold toU64
+  simp only []
+  split
+  · exact Nat.zero_le _
+  · rename_i h0
+    have hfl : q.floor ≤ (M : Int) := by
+      have : (q.floor : ℚ) ≤ (M : ℚ) := _root_.le_trans (Rat.floor_le q) h
+      exact_mod_cast this
+    have : q.floor.toNat ≤ M := by omega
+    split
+    · exact _root_.le_trans (by unfold u64Max at *; omega) this
+    · exact this
+
+/-- `f64::round` of a real number is an integer-valued real number -/
+theorem fround_fin (q : ℚ) : ∃ z : Int, fround (.fin q) = .fin (z : ℚ) := by
+  simp only [fround]
+  split
+  · exact ⟨-((-q) + 1 / 2).floor, by push_cast; rfl⟩
+  · exact ⟨(q + 1 / 2).floor, rfl⟩
+
+theorem fround_le_of_le {q : ℚ} {M : Nat} (h : q ≤ (M : ℚ)) :
+    ∃ r : ℚ, fround (.fin q) = .fin r ∧ r ≤ (M : ℚ) := by
+  simp only [fround]
+  split
+  · rename_i hneg
+    refine ⟨_, rfl, ?_⟩
+    have h0 : (0 : Int) ≤ ((-q) + 1 / 2).floor := Rat.le_floor_iff.mpr (by push_cast; linarith)
+    have : ((((-q) + 1 / 2).floor : Int) : ℚ) ≥ 0 := by exact_mod_cast h0
+    have hM : (0 : ℚ) ≤ (M : ℚ) := by positivity
+    linarith
+  · refine ⟨_, rfl, ?_⟩
+    have : (q + 1 / 2).floor < (M : Int) + 1 := Rat.floor_lt_iff.mpr (by push_cast; linarith)
+    have : (q + 1 / 2).floor ≤ (M : Int) := by omega
+    exact_mod_cast this
+
+theorem fround_nonneg_of_nonneg {q : ℚ} (h : 0 ≤ q) :
+    ∃ r : ℚ, fround (.fin q) = .fin r ∧ 0 ≤ r := by
+  simp only [fround]
+  rw [if_neg (not_lt.mpr h)]
+  refine ⟨_, rfl, ?_⟩
+  have h0 : (0 : Int) ≤ (q + 1 / 2).floor := Rat.le_floor_iff.mpr (by push_cast; linarith)
+  exact_mod_cast h0
+
 end Fp
 end Mb
